@@ -120,6 +120,7 @@ func nodeClass(cx *explore.Ctx, q run.Query) string {
 func C02(tier string) int {
 	c := report.NewCollector("C02")
 	cases := explore.Cases(explore.CaseOpts{Tier: tier, Prefixes: true, Edits: tier == "thorough", Seqs: tier == "thorough"})
+	cases = append(cases, jsonCases(tier)...)
 	explore.Sweep(cases, c, explore.Deadline(tier), explore.Opts{
 		Kinds:    allKinds,
 		OnResult: c02Result,
